@@ -92,3 +92,36 @@ PROPS['C09'] = dict(
     level_note="Correspondence compares outputs modulo the order inside rank-equal runs (stability is not part of the property) and only as multisets for inconsistent rankers. crypto/rand is external. The in-place buffer swapping of sortValues is modelled functionally (Go slices as lists).",
     assumptions=["rankers are shared by name between harness and driver (identical arithmetic on both sides)"],
 )
+
+def set_key(l):
+    return (l.get('ty'), l.get('rk'), l.get('op'), l.get('out'), size_class(len(l.get('pre', []))),
+            size_class(len(l.get('vs', []))), size_class(len(l.get('ws', []))), l.get('alias', ''),
+            str(l.get('res'))[:12] if l.get('op') in ('containsValue', 'containsAny', 'containsAll') else '')
+
+PROPS['C02'] = dict(
+    id='C02',
+    modules=['CollectionModel.Props.C02'],
+    key=set_key, nontrivial=lambda l: l.get('op') != 'make',
+    rule="cases = single Set calls (pre-state, collator, operation, observation): every operation with every universe and "
+         "outside value from every subset state of a 5-6 value universe (quick: every third subset for the 6-value one), bulk "
+         "operands (empty, singleton, shuffled with duplicates, disjoint, self), random histories over a 9-value domain and a "
+         "growth run to size 200/1000; collators default, reversed, coarse; element types int, string, []int, any, Set[int]; "
+         "non-trivial = not the constructor line; distinct = distinct (type, collator, operation, outcome, sizes, aliasing, boolean result)",
+    exhaustive_subspaces="all single steps from all subset states of the universe, per element type and collator (thorough tier)",
+    level_text="Lean 4 theorems: C02_findIndex (the binary search as written – first/last/size triple, middle = first + size/2 – returns found=(member up to rank-equivalence) with the rank-equal index, else the insertion slot <= size with everything before below and everything after above the probe), C02_step_refines (every Set call refines the abstract ordered duplicate-free set), C02_step_sorted / C02_history_sorted (strictly ascending after every call of every history, for ANY total-preorder collator), C02_add_members / C02_remove_members (membership = added and not removed), C02_slot_in_range. Tied to /repo by the differential run and the executable spec on the real observations.",
+    level_note="Collators are shared by name between harness and driver; the default collator is exercised through canonical ids whose order equals the default collator's order (C07 is about the collator itself). Sampled correspondence.",
+)
+
+PROPS['C15'] = dict(
+    id='C15',
+    modules=['CollectionModel.Props.C15'],
+    key=set_key, nontrivial=lambda l: len(l.get('vs', [])) + len(l.get('ws', [])) > 0,
+    rule="cases = one And/Or/Sans/Xor call on two freshly built sets (operands, result, operands afterwards, independence "
+         "probe: mutate the result / the operands afterwards and re-read the other side); all pairs of subsets of a 6-value "
+         "universe x 4 operations for int and string (quick: every 5th pair plus all equal pairs; thorough: all 4096), custom "
+         "collators, composite elements ([]int, Set[int], any), the same set passed twice, random pairs over a 40-value universe; "
+         "non-trivial = at least one operand non-empty",
+    exhaustive_subspaces="thorough tier: all 4096 pairs of subsets of a 6-value universe x 4 operations, element types int and string",
+    level_text="Lean 4 theorems C15_and / C15_or / C15_sans / C15_xor: the class functions as written (And: filter-by-ContainsValue then AddValue; Or: AddValues twice; Sans: AddValues then RemoveValues; Xor: Or of two Sans) return a strictly ascending duplicate-free set whose members are exactly the intersection / union / difference / symmetric difference up to rank-equivalence, for every pair of sets and every total-preorder collator; C15_step_refines (they refine the executable spec the driver applies to the real observations); C15_same_operand (A op A). Operand immutability and result independence are runtime aliasing facts checked dynamically by the harness probes.",
+    level_note="In the model operands are values, so 'operands unchanged' is by construction; the storage-independence half of the property is validated by the harness's mutate-and-reread probes (aft_a, aft_b, indep fields), not proved.",
+)
